@@ -71,4 +71,44 @@ PROPS = {
             {"pkg": T, "test": "TestVerifC03", "quick": (12, 2500), "thorough": (16, 150000)},
         ],
     },
+    "C04": {
+        "level": "exploration",
+        "claim": ("Structure-aware generators build every message kind (OPEN with every capability kind, UPDATE in body/MP/mixed "
+                  "form with attribute sets and NLRI of the generated families, NOTIFICATION, ROUTE-REFRESH, KEEPALIVE) under "
+                  "generated session options; each must serialise (unless over the session maximum, which must be refused), be "
+                  "accepted by an independent RFC 4271/4760/7911/8654 framing walker that must agree with the codec on every "
+                  "element boundary, parse back to an equal message, and re-serialise to the same bytes; every attribute, NLRI "
+                  "and capability must report the length it emits and its decoder must consume exactly that many octets when "
+                  "followed by other data. Mutated encodings that the parser still accepts (core families) must reach a "
+                  "serialise/parse fixpoint."),
+        "note": ("Equality is compared on the canonical JSON rendering plus byte identity; the walker checks NLRI arithmetic "
+                 "for the ten core families only (other families: attribute framing only). Bounded by generator coverage, "
+                 "see the label histogram in the evidence."),
+        "technique": "property-based testing (rapid) with structure-aware recipe generators: round-trip, independent framing walker (differential), mutation fixpoint; native go fuzzing of the same recipe builders in the thorough tier",
+        "rule": ("a recipe (sequence of numbers) is drawn by rapid and turned into a message + options by the verifgen "
+                 "builders; non-trivial when the message has >=2 attributes or >=2 NLRI or an element of a non-core family, or "
+                 ">=2 capabilities (OPEN), or NOTIFICATION data; distinct by recipe hash"),
+        "assumptions": ["path identifiers are compared only for families with ADD-PATH on (otherwise not on the wire)"],
+        "units": [
+            {"pkg": B, "test": "TestVerifC04", "quick": (12, 25000), "thorough": (16, 2000000)},
+        ],
+    },
+    "C07": {
+        "level": "exploration",
+        "claim": ("Generated event sequences (connect, valid and each kind of invalid OPEN, KEEPALIVE, UPDATE, ROUTE-REFRESH, "
+                  "NOTIFICATION, malformed headers, remote close, waits positioned just before/after the next timer deadline, "
+                  "enable/disable/shutdown/reset/soft reset/delete) are applied to a passive peer of a real BgpServer running in "
+                  "virtual time (testing/synctest); after every event the bytes on every connection with their virtual "
+                  "timestamps, ListPeer session/admin state and the RIB are compared with an explicit reference FSM written from "
+                  "RFC 4271 section 8."),
+        "note": ("Passive side only (the active-open path needs a dial hook, see DESIGN section 4); TCP-level behaviour out of "
+                 "scope; outcomes the RFC leaves open (OPEN in Established) are not asserted."),
+        "technique": "model-based property testing (rapid) of event histories in virtual time against a reference state machine",
+        "rule": ("rapid draws peer kind, local/remote hold times and 1-25 events; non-trivial when the session reached OpenSent "
+                 "or beyond and a later event is an error, admin or timer-boundary event; distinct by case hash"),
+        "assumptions": ["the scripted peer's writes are consumed by the server at the virtual instant they are issued"],
+        "units": [
+            {"pkg": S, "test": "TestVerifC07", "quick": (16, 1000), "thorough": (16, 20000), "timeout_q": 1500},
+        ],
+    },
 }
